@@ -23,6 +23,13 @@ def cb(b: bytes) -> str:
     return '[' + ';'.join('x%02x' % x for x in b) + ']' if b else 'nil'
 
 
+def cz(n: int) -> str:
+    """Z literal; big numbers in hexadecimal (coqc converts decimal literals very slowly)."""
+    if abs(n) < 10 ** 15:
+        return f'({n})%Z'
+    return f'({"-" if n < 0 else ""}0x{abs(n):x})%Z'
+
+
 def cbt(s: str) -> str:
     return cb(s.encode('ascii'))
 
@@ -390,7 +397,7 @@ def norm_out(t, m):
 def value_coq(v) -> str:
     k = v[0]
     if k == 'int':
-        return f'(VInt {lib.cZ(v[1])})'
+        return f'(VInt {cz(v[1])})'
     if k == 'str':
         return f'(VStr {cb(v[1].encode("ascii"))})'
     if k == 'bytes':
@@ -543,3 +550,32 @@ def contains_shape(t, v, pred) -> bool:
     if t[0] == 'or':
         return contains_shape(t[1] if v[0] == 'left' else t[2], v[1], pred)
     return False
+
+
+# ------------------------------------------------------------------------------------ running case files
+
+def par_mismatches(ctx, name, imports, fn, eqb, in_ty, out_ty, cases, shard=100):
+    """ctx.coq_mismatches, but every case literal is its own [Definition] (coqc elaborates one huge list
+    literal super-linearly: 8 cases of 3 KB took 24 s as one list and 2.4 s as separate definitions);
+    shards run concurrently, each through ctx.coq_mismatches with its definitions as prelude."""
+    import concurrent.futures
+    if not cases:
+        return []
+    chunks = [(b, cases[b:b + shard]) for b in range(0, len(cases), shard)]
+
+    def one(job):
+        base, chunk = job
+        prelude = []
+        refs = []
+        for k, (a, b) in enumerate(chunk):
+            prelude.append(f'Definition ci{k} : {in_ty} := {a}.\nDefinition co{k} : {out_ty} := {b}.')
+            refs.append((f'ci{k}', f'co{k}'))
+        bad = ctx.coq_mismatches(f'{name}{base}', imports, fn, eqb, in_ty, out_ty, refs, shard=len(refs) + 1,
+                                 prelude='\n'.join(prelude))
+        return [base + i for i in bad]
+
+    out = []
+    with concurrent.futures.ThreadPoolExecutor(max_workers=lib.NCPU) as ex:
+        for r in ex.map(one, chunks):
+            out.extend(r)
+    return sorted(out)
